@@ -493,3 +493,33 @@ def _bank_worker(args):
         import traceback
         sub.errors.append('bank loader %s: checker crashed: %s' % (banks, traceback.format_exc()[-400:]))
     return sub.export()
+
+
+def crosscheck_loaders(rep, prop, n=120):
+    """Standing CPython cross-check: the emitted loaders run on the real Simulator against the contracts."""
+    import random
+    rnd = random.Random(20260926)
+    for t in range(n):
+        vals = {'org': rnd.randrange(16384, 65536), 'length': rnd.randrange(1, 49152), 'start': rnd.randrange(65536),
+                'stack': rnd.choice((0, 1, 2, 16384, 16385, 23296, 23330, 65535, rnd.randrange(65536)))}
+        s2, s1 = (vals['stack'] - 2) & 0xFFFF, (vals['stack'] - 1) & 0xFFFF
+        if any(23296 <= x < 23296 + 19 for x in (s1, s2)):
+            continue
+        for i in range(30):
+            vals['r%d' % i] = rnd.randrange(256)
+        vals['r12'] = rnd.randrange(65536)
+        vals['r13'] = 0
+        r = replay_data_loader(vals, '')
+        if r['diffs']:
+            rep.violation('%s/skoolkit.bin2tap._get_data_loader/crosscheck' % prop, 'emitted data loader disagrees with its contract on the real simulator: %s' % (r['diffs'][:3],),
+                          {'case': r['case'], 'observed_vs_expected': r['diffs']})
+            break
+    for t in range(n // 2):
+        banks = [b for b in range(8) if rnd.random() < 0.5]
+        addr = rnd.choice((0x8000, 0x6000, rnd.randrange(0x5C00, 0xBF00)))
+        d = concrete_bank_loader(banks, addr, rnd.randrange(65536), rnd.randrange(256), sp=0x5BF0)
+        if d:
+            rep.violation('%s/skoolkit.bin2tap._get_bank_loader/crosscheck' % prop, 'emitted bank loader disagrees with its contract on the real simulator: %s' % (d[:3],),
+                          {'case': {'banks': banks, 'loader_addr': addr, 'loader': 'bank'}, 'observed_vs_expected': d})
+            break
+    rep.extra['crosscheck_samples'] = rep.extra.get('crosscheck_samples', 0) + n + n // 2
